@@ -12,7 +12,7 @@
 (*       files: Seq({"F1","F2","BAD","NONELF"}),                           *)
 (*       args: Seq([lit: BOOLEAN, vals: Seq(STRING)])]                     *)
 (***************************************************************************)
-EXTENDS Naturals, Sequences, FiniteSets, TLC
+EXTENDS Integers, Sequences, FiniteSets, TLC
 
 Valid(f) == f \in {"F1", "F2"}
 ValidFiles(cfg) == SelectSeq(cfg.files, Valid)
@@ -99,6 +99,67 @@ Expected(cfg) ==
                      ELSE IF failed \/ badfile THEN "some"
                      ELSE IF q /\ Fails(cfg) THEN "any" ELSE "none"]
 
+
+-----------------------------------------------------------------------------
+(* MECHANISM: main () of dwgrep.cc, statement by statement.  The library is    *)
+(* the same abstraction (Yields / Fails).  PinnedCount / PinnedZeroArg give     *)
+(* the pinned commit's behaviour for the defects repaired since (DESIGN.md 7).  *)
+
+CONSTANTS PinnedCount, PinnedZeroArg
+
+\* the odometer over `args' (files first): indexes into each dimension
+RECURSIVE Bump(_, _, _)
+\* returns [its: new indexes, next: BOOLEAN]; the LAST argument varies fastest
+Bump(dims, its, i) ==
+    IF i = 0 THEN [its |-> its, next |-> FALSE]
+    ELSE IF its[i] + 1 > Len(dims[i]) THEN Bump(dims, [its EXCEPT ![i] = 1], i - 1)
+    ELSE [its |-> [its EXCEPT ![i] = @ + 1], next |-> TRUE]
+
+RECURSIVE MainLoop(_, _, _, _)
+\* st: [out, err, errors, match, done (early exit status or -1)]
+MainLoop(cfg, dims, its, st) ==
+    LET q == "q" \in cfg.flags
+        row == [i \in 1..Len(dims) |-> dims[i][its[i]]]
+        ys == Yields(cfg, row)
+        hdr == Header(cfg, row)
+        withh == WithHeader(cfg)
+        \* the while (auto out = zw_result_next) loop
+        printed == IF "c" \in cfg.flags THEN <<>>
+                   ELSE Flat([j \in 1..Len(ys) |-> Record(cfg, row, ys[j])])
+        countline == <<(IF withh THEN hdr \o ":" ELSE "") \o NatStr(Len(ys))>>
+        st1 == IF q /\ Len(ys) > 0
+               THEN [st EXCEPT !.done = 0]                                   \* grep: exit at once on the first match
+               ELSE LET out1 == st.out \o printed
+                        out2 == IF "c" \in cfg.flags /\ (PinnedCount \/ ~q)
+                                THEN (IF Fails(cfg) /\ PinnedCount THEN out1 ELSE out1 \o countline)
+                                ELSE out1
+                    IN [st EXCEPT !.out = out2,
+                                  !.match = st.match \/ Len(ys) > 0,
+                                  !.err = st.err \/ (Fails(cfg) /\ "s" \notin cfg.flags),
+                                  !.errors = st.errors \/ (Fails(cfg) /\ ~q)]
+        b == Bump(dims, its, Len(dims))
+    IN IF st1.done # -1 \/ ~b.next THEN st1 ELSE MainLoop(cfg, dims, b.its, st1)
+
+Main(cfg) ==
+    IF cfg.qc = "cerr" THEN [status |-> 2, out |-> <<>>, err |-> "some"]
+    ELSE LET badfile == \E i \in 1..Len(cfg.files) : ~Valid(cfg.files[i])
+             openerr == badfile /\ "s" \notin cfg.flags
+         IN IF Len(cfg.files) > 0 /\ Len(ValidFiles(cfg)) = 0
+            THEN [status |-> 1, out |-> <<>>, err |-> IF openerr THEN "some" ELSE "none"]     \* done before we started
+            ELSE LET dims == Dims(cfg)
+                     iterations == IF Len(dims) = 0 THEN 1
+                                   ELSE LET RECURSIVE Prod(_)
+                                            Prod(i) == IF i > Len(dims) THEN 1 ELSE Len(dims[i]) * Prod(i + 1)
+                                        IN Prod(1)
+                 IN IF iterations = 0
+                    THEN (IF PinnedZeroArg THEN [status |-> 139, out |-> <<>>, err |-> "none"]     \* dereferences end ()
+                          ELSE [status |-> 1, out |-> <<>>, err |-> IF openerr THEN "some" ELSE "none"])
+                    ELSE LET st == MainLoop(cfg, dims, [i \in 1..Len(dims) |-> 1],
+                                            [out |-> <<>>, err |-> openerr, errors |-> FALSE, match |-> FALSE, done |-> -1])
+                         IN [status |-> IF st.done # -1 THEN st.done ELSE IF st.errors THEN 2 ELSE IF st.match THEN 0 ELSE 1,
+                             out |-> st.out,
+                             err |-> IF st.err THEN "some" ELSE "none"]
+
 -----------------------------------------------------------------------------
 (* the configuration space *)
 
@@ -118,4 +179,10 @@ QuietIsSilent == \A c \in Configs : "q" \in c.flags => Expected(c).out = <<>>
 CountLines == \A c \in Configs : ("c" \in c.flags /\ "q" \notin c.flags /\ c.qc # "cerr" /\ ~NoInput(c))
                  => Len(Expected(c).out) = Len(Iterations(c))
 StatusTable == \A c \in Configs : Expected(c).status \in {0, 1, 2}
+\* the transcription of main () honours the contract
+ErrCompatible(m, e) == e = "any" \/ m = e
+MainRefinesContract ==
+    \A c \in Configs : LET m == Main(c) e == Expected(c) IN
+        m.status = e.status /\ m.out = e.out /\ ErrCompatible(m.err, e.err)
+
 =============================================================================
